@@ -164,7 +164,7 @@ def run(ctx):
     # (B) larger random maps
     for _ in range(120 if thorough else 40):
         rows = []
-        for chn in rng.sample(range(1, 8), rng.randrange(2, 5)):
+        for chn in rng.sample(range(0, 8), rng.randrange(2, 5)):        # chromosome numbering may start at 0
             m = rng.randrange(2, 9)
             p = rng.randrange(1, 5); g = rng.randrange(0, 10)
             for _k in range(m):
